@@ -25,6 +25,7 @@ import (
 	"io"
 	"io/fs"
 	"net/http"
+	"net/url"
 	"os"
 	"path/filepath"
 	"sort"
@@ -4347,24 +4348,31 @@ func (p *Posix) CopyObject(ctx context.Context, input s3response.CopyObjectInput
 			putObjectInput.Tagging = input.Tagging
 		}
 
-		res, err := p.PutObject(ctx, putObjectInput)
-		if err != nil {
-			return nil, err
-		}
-
-		// copy the source object tagging after the destination object
-		// creation, if tagging directive is "COPY"
+		// pass the source object tagging to PutObject, if tagging directive
+		// is "COPY": PutObject stores it together with the data, before
+		// the destination object is published
 		if input.TaggingDirective == types.TaggingDirectiveCopy {
 			tagging, err := p.meta.RetrieveAttribute(nil, srcBucket, srcObject, tagHdr)
 			if err != nil && !errors.Is(err, meta.ErrNoSuchKey) {
 				return nil, fmt.Errorf("get source object tagging: %w", err)
 			}
 			if err == nil {
-				err := p.meta.StoreAttribute(nil, dstBucket, dstObject, tagHdr, tagging)
-				if err != nil {
-					return nil, fmt.Errorf("set destination object tagging: %w", err)
+				var srcTags map[string]string
+				if err := json.Unmarshal(tagging, &srcTags); err != nil {
+					return nil, fmt.Errorf("parse source object tagging: %w", err)
 				}
+				vals := url.Values{}
+				for k, v := range srcTags {
+					vals.Set(k, v)
+				}
+				encoded := vals.Encode()
+				putObjectInput.Tagging = &encoded
 			}
+		}
+
+		res, err := p.PutObject(ctx, putObjectInput)
+		if err != nil {
+			return nil, err
 		}
 
 		etag = res.ETag
